@@ -43,6 +43,8 @@ func runC18(c *core.Ctx) {
 	c.Clause("C18.2 primitive widths and byte order agree; isEntryBuffered header length")
 	h.primitiveLayer("C18.2 primitives")
 	h.headerLenAgrees("C18.2b headerLen")
+	c.Clause("C18.2c the leader-originated handlers consume exactly the announced payload on every reply path (framing of pipelined requests)")
+	h.handlersDrainPayload("C18.2c payload-drained")
 	c.Clause("C18.3 admin request bodies and task responses agree branch by branch")
 	h.adminBodies("C18.3 admin")
 	c.Clause("C18.4 registries: rpcType/taskType switches exhaustive; error kinds of the task decoder exist")
@@ -435,4 +437,67 @@ func (h H) fileNameParsers(rule string) {
 		h.C.Check(rule, h.name(ff)+" ↔ "+h.name(pf), allU64 && okFmt && nU == want && nBad == 0, h.fpos(pf),
 			fmt.Sprintf("values are formatted as %s of uint64 (all uint64=%v) but parsed with %d ParseUint(_,10,64) and %d signed/other parsers: values >= 2^63 would not read back", fmtStr, allU64, nU, nBad))
 	}
+}
+
+// handlersDrainPayload: in onAppendEntriesRequest / onInstallSnapRequest every
+// return that answers normally (anything but readErr/unexpectedErr, after which the
+// connection is dropped) has consumed the announced entries / snapshot bytes:
+// it returns the drain closure's result, or lies behind "nothing left to read".
+func (h H) handlersDrainPayload(rule string) {
+	readErr, unexp := h.constStr("raft:readErr"), h.constStr("raft:unexpectedErr")
+	// append handler
+	fn := h.fn(appendFn)
+	fi := h.P.Info(fn)
+	n := 0
+	for k, r := range core.Returns(fn) {
+		v := h.retVal(r, 0).String()
+		site := fmt.Sprintf("(*Raft).onAppendEntriesRequest return#%d", k+1)
+		if v == readErr || v == unexp {
+			continue
+		}
+		n++
+		if strings.HasPrefix(v, "(*Raft).onAppendEntriesRequest$") && strings.HasSuffix(v, "#0") {
+			h.C.Check(rule, site, true, h.pos(r), "returns through the drain closure")
+			continue
+		}
+		res := fi.MustCrossAtom(r, core.MkAtom("appendReq.numEntries", "==", "0"))
+		h.C.Check(rule, site, res.OK, h.pos(r), "the handler answers "+v+" while entries announced by the request may still be unread on the connection: the next request on this pipelined stream would be decoded from the middle of them")
+	}
+	h.C.Floor(rule+" (normal returns of the append handler)", n, 4)
+	// the drain closure reads until numEntries == 0
+	for _, cl := range h.P.Closures(fn) {
+		if len(h.P.DeferredClosures(fn)) > 0 && cl == h.P.DeferredClosures(fn)[0] {
+			continue
+		}
+		cfi := h.P.Info(cl)
+		for k, r := range core.Returns(cl) {
+			v := cfi.Sym(r.Results[0]).String()
+			if v == readErr {
+				continue
+			}
+			res := cfi.MustCrossAtom(r, core.MkAtom("appendReq.numEntries", "==", "0"))
+			h.C.Check(rule+" drain-complete", fmt.Sprintf("%s return#%d", h.name(cl), k+1), res.OK, h.pos(r), "the drain helper can return before all announced entries were read")
+		}
+	}
+	// install handler: a normal return either went through drain or follows a complete CopyN
+	in := h.fn("raft:(*Raft).onInstallSnapRequest")
+	ifi := h.P.Info(in)
+	m := 0
+	for k, r := range core.Returns(in) {
+		v := h.retVal(r, 0).String()
+		site := fmt.Sprintf("(*Raft).onInstallSnapRequest return#%d", k+1)
+		if v == readErr || v == unexp {
+			continue
+		}
+		m++
+		if strings.HasPrefix(v, "(*Raft).onInstallSnapRequest$") && strings.HasSuffix(v, "#0") {
+			h.C.Check(rule, site, true, h.pos(r), "returns through the drain closure")
+			continue
+		}
+		res := ifi.MustCross(r, func(a core.Atom) bool {
+			return a.Op == "==" && a.R == "nil" && strings.HasPrefix(a.L, "io.CopyN(") && strings.HasSuffix(a.L, "#1")
+		})
+		h.C.Check(rule, site, res.OK, h.pos(r), "the install handler answers "+v+" although the snapshot bytes announced by the request may still be unread on the connection")
+	}
+	h.C.Floor(rule+" (normal returns of the install handler)", m, 2)
 }
